@@ -259,7 +259,7 @@ async def loop_output_case(context):
     return None
 
 
-async def transfer_case(context):
+async def transfer_case(context, directed=False):
     """a job-bound step: a TransferStep with 1..3 input ports and 2..4 tags whose tokens arrive in an independent order on every
     port; each emitted token is linked to the job token of the job it was transferred for plus the consumed inputs OF ITS TAG"""
     from streamflow.core.workflow import Job
@@ -277,6 +277,8 @@ async def transfer_case(context):
 
     names = ["a", "b", "c"][:rng.randint(1, 3)]
     tags = [f"0.{i}" for i in rng.sample(range(12), rng.randint(2, 4))]
+    if directed:  # two ports whose tags arrive in opposite orders
+        names, tags = ["a", "b"], ["0.0", "0.1", "0.10"]
     wf = Workflow(context=context, name=uniq("c07-x"), config={})
     ins = {n: wf.create_port() for n in names}
     outs = {n: wf.create_port() for n in names}
@@ -291,6 +293,8 @@ async def transfer_case(context):
     for n in names:
         order = list(tags)
         rng.shuffle(order)
+        if directed:
+            order = list(tags) if n == "a" else list(reversed(tags))
         for tag in order:
             t = Token(value=f"{n}@{tag}", tag=tag, recoverable=True)
             await t.save(context.database, port_id=ins[n].persistent_id)
@@ -538,7 +542,7 @@ async def search(n):
             bad = await gather_case(context, m, ws)
             if bad:
                 return bad
-        bad = await transformer_case(context, directed=True) or await combinator_case(context, shape="cart(x,y)", nx=3, ny=3) or await shared_token_case(context)
+        bad = await transformer_case(context, directed=True) or await transfer_case(context, directed=True) or await combinator_case(context, shape="cart(x,y)", nx=3, ny=3) or await shared_token_case(context)
         if bad:
             return bad
         for k in range(n):
